@@ -123,7 +123,10 @@ func universeObserve(u *gengotypes.Universe, p gengotypes.Package) map[string]an
 								wantVal = append(wantVal, m.Name())
 							}
 						}
+						// asked in every order: all, value receivers, all again, value receivers again - the answers must not depend on it
 						gotAll, gotVal := []string{}, []string{}
+						_ = p.MethodsOf(named, true)
+						_ = p.MethodsOf(named, false)
 						for _, m := range p.MethodsOf(named, true) {
 							gotAll = append(gotAll, m.Name())
 						}
